@@ -78,7 +78,16 @@ static int __json_patch_apply_remove(struct json_pointer_get_result *jpres)
 	if (json_object_is_type(jpres->parent, json_type_array)) {
 		return json_object_array_del_idx(jpres->parent, jpres->index_in_parent, 1);
 	} else if (jpres->parent && jpres->key_in_parent) {
-		json_object_object_del(jpres->parent, jpres->key_in_parent);
+		/* key_in_parent points into the (escaped) pointer string */
+		char *key = strdup(jpres->key_in_parent);
+		if (!key)
+		{
+			errno = ENOMEM;
+			return -1;
+		}
+		json_pointer_unescape_token(key);
+		json_object_object_del(jpres->parent, key);
+		free(key);
 		return 0;
 	} else {
 		// We're removing the root object
